@@ -252,3 +252,145 @@ def real_kill_cases(src, verif, ncases=2):
         import shutil
         shutil.rmtree(tmp, ignore_errors=True)
     return violations, report
+
+
+_FULL_DISK_SNIPPET = r"""
+import sys, os, signal, resource
+os.environ["OMP_NUM_THREADS"] = "1"
+sys.path.insert(0, %(src)r)
+sys.path.insert(0, %(verif)r)
+import warnings; warnings.simplefilter("ignore")
+import oqupy, oqupy.process_tensor as ptm
+from dsim.props import c17
+from dsim import models
+case = %(case)r
+limit = %(limit)d
+if case["kind"] == "export":
+    pt = c17.build_simple_pt(case)
+else:
+    bath = models.make_bath(case["coupling"], alpha=case["alpha"])
+    pars = oqupy.TempoParameters(dt=0.1, epsrel=case["epsrel"],
+                                 dkmax=case["dkmax"])
+if limit:
+    # the file system refuses to let the file grow beyond ``limit`` bytes
+    # (EFBIG: the behaviour of a full disk / quota for this one file); the
+    # last permitted write is cut short
+    signal.signal(signal.SIGXFSZ, signal.SIG_IGN)
+    resource.setrlimit(resource.RLIMIT_FSIZE, (limit, limit))
+if case["kind"] == "export":
+    pt.export(%(path)r)
+else:
+    ptt = oqupy.PtTempo(bath, 0.0, (case["steps"] + 0.5) * 0.1, pars,
+                        process_tensor_file=%(path)r)
+    ptt.compute(progress_type="silent")
+    ptt.get_process_tensor(progress_type="silent").close()
+print("COMPLETED")
+"""
+
+
+def real_full_disk_cases(src, verif, tier="quick"):
+    """A real writer on a real file that the OS stops from growing beyond L
+    bytes (RLIMIT_FSIZE, SIGXFSZ ignored): writes past L fail with EFBIG -
+    the one crossing L is cut short - while writes below L still succeed,
+    so the surviving image is *not* a prefix of the write sequence.  The
+    writer dies by the resulting uncaught exception (or inside HDF5's
+    shutdown); the file is then opened by the real reader."""
+    import warnings
+    sys.path.insert(0, src)
+    import oqupy
+    import oqupy.process_tensor as ptm
+    from .props import c17
+    from . import simdisk, models
+    simdisk.uninstall()
+    violations, report = [], {}
+    cases = [
+        {"kind": "export", "n": 4, "d": 2, "chi": 30, "rank": 4, "dt": None,
+         "transforms": True, "caps": True, "named": False, "tseed": 12},
+        {"kind": "pt_tempo_file", "coupling": "x", "alpha": 0.2,
+         "epsrel": 1e-6, "dkmax": 3, "steps": 6},
+        {"kind": "export", "n": 3, "d": 2, "chi": 3, "rank": 3, "dt": 0.1,
+         "transforms": False, "caps": True, "named": True, "tseed": 11},
+    ]
+    if tier == "quick":
+        cases = cases[:2]
+    tmp = tempfile.mkdtemp(prefix="dsim-full-")
+    try:
+        for ci, case in enumerate(cases):
+            path = os.path.join(tmp, "c%d.hdf5" % ci)
+
+            def writer(limit, path=path):
+                if os.path.exists(path):
+                    os.remove(path)
+                code = _FULL_DISK_SNIPPET % {
+                    "src": src, "verif": verif, "case": case,
+                    "limit": limit, "path": path}
+                return subprocess.run(
+                    [sys.executable, "-c", code], capture_output=True,
+                    text=True, timeout=180, cwd="/",
+                    env=dict(os.environ, PYTHONPATH="",
+                             PYTHONDONTWRITEBYTECODE="1"))
+            p = writer(0)
+            if "COMPLETED" not in p.stdout:
+                report["case%d" % ci] = "writer failed: " + (
+                    p.stderr.strip().splitlines() or ["?"])[-1][:200]
+                continue
+            size = os.path.getsize(path)
+            with warnings.catch_warnings():
+                warnings.simplefilter("ignore")
+                q = ptm.import_process_tensor(path, "simple")
+            ref = c17.snapshot(q)
+            n = 6 if tier == "quick" else 24
+            limits = sorted({96, 2048, size - 1, size - 97, size - 2049}
+                            | {max(97, (size * i) // (n + 1))
+                               for i in range(1, n + 1)})
+            limits = [x for x in limits if 0 < x < size]
+            # the writers are independent processes on files of their own:
+            # run them side by side (the outcome of each depends on its
+            # limit only), then read the files one by one
+            from concurrent.futures import ThreadPoolExecutor
+            paths = {lim: os.path.join(tmp, "c%d-L%d.hdf5" % (ci, lim))
+                     for lim in limits}
+            with ThreadPoolExecutor(8) as ex:
+                procs = dict(zip(limits, ex.map(
+                    lambda lim: writer(lim, paths[lim]), limits)))
+            outcomes = {}
+            for lim in limits:
+                p = procs[lim]
+                lpath = paths[lim]
+                died = "COMPLETED" not in p.stdout
+                if not os.path.exists(lpath):
+                    outcomes[str(lim)] = "no file"
+                    continue
+                with warnings.catch_warnings(record=True) as w:
+                    warnings.simplefilter("always")
+                    try:
+                        q = ptm.import_process_tensor(lpath, "simple")
+                        warned = any("corrupt" in str(x.message).lower()
+                                     for x in w)
+                        diffs = c17.observe(q, ref, None)
+                        res = "warned" if warned else (
+                            "complete" if not diffs else "silent-incomplete")
+                    except Exception as e:  # noqa: BLE001
+                        res = "fails:" + type(e).__name__
+                        diffs = []
+                outcomes[str(lim)] = res + ("" if died else
+                                            " (writer completed)")
+                if res == "silent-incomplete":
+                    violations.append({
+                        "class": "silent_incomplete_after_disk_full",
+                        "signature": "real-full-disk/" + case["kind"],
+                        "detail": "a real writer whose file could not grow "
+                                  "beyond %d of %d bytes %s; the file opens "
+                                  "without warning but %s differ" % (
+                                      lim, size,
+                                      "died" if died else "reported success",
+                                      diffs[:5])})
+                try:
+                    os.remove(lpath)
+                except OSError:
+                    pass
+            report["case%d(%s,%dB)" % (ci, case["kind"], size)] = outcomes
+    finally:
+        import shutil
+        shutil.rmtree(tmp, ignore_errors=True)
+    return violations, report
